@@ -7,7 +7,7 @@
      mutex, refreshes the flag and flushes the WHOLE parked queue, with no return before the unlock;
    - processMessageLoop: wait, get-or-create, (parked: emit) | process, (failure: park again, emit) |
      flush the device queue, emit;
-   - the flag is written by these two functions only. *)
+   - the flag is read and written by these two functions only, i.e. under muDeviceCaches. *)
 From Coq Require Import List String.
 From Wesh Require Import Gen.Pipeline.
 Import ListNotations.
@@ -20,5 +20,6 @@ Lemma pipeline_shape :
   pipe_loop = ["call WaitForItem"; "call getOrCreateDeviceCache"; "call Emit"; "call processMessage"; "call Add"; "call Emit";
                "call processDeviceMessagesInQueue"; "call Emit"] /\
   chain_key_flag_writers = ["ProcessMessageQueueForDevicePK"; "getOrCreateDeviceCache"] /\
+  chain_key_flag_users = ["ProcessMessageQueueForDevicePK"; "getOrCreateDeviceCache"] /\
   pipe_returns = (2, 0)%nat.
 Proof. repeat split; reflexivity. Qed.
